@@ -378,3 +378,96 @@ def expand_predicates(paths: list[Path], helpers: dict[str, tuple[ast.FunctionDe
         if len(out) + len(work) > LIMIT:
             raise AnalysisError("predicate expansion: too many cases")
     return out
+
+
+def refusals(fn: ast.AST) -> list[tuple[tuple[tuple[str, str], ...], frozenset]] | None:
+    """How a boolean predicate function can answer False: a list of (iteration chain, facts) where the chain is the
+    nest of (loop variable, iterable) the refusing return sits in (generators of `any` / `all` count as loops) and the
+    facts are the normalised conditions (locals resolved along the path) under which it is reached.  Loop variables
+    are renamed positionally (_v0, _v1, ...) so that differently named but equal nests compare equal.  None when the
+    function has a shape this summary does not cover."""
+    from .astutil import norm_fact
+
+    out: list[tuple[tuple[tuple[str, str], ...], frozenset]] = []
+
+    def rename(chain, texts):
+        ren = {}
+        for i, (tg, _) in enumerate(chain):
+            for j, nm in enumerate([t.strip() for t in tg.strip("()").split(",") if t.strip()]):
+                ren[nm] = f"_v{i}" if j == 0 and "," not in tg else f"_v{i}_{j}"
+        import re as _re
+
+        def r(t: str) -> str:
+            for k, v in sorted(ren.items(), key=lambda kv: -len(kv[0])):
+                t = _re.sub(rf"\b{_re.escape(k)}\b", v, t)
+            return t
+
+        return tuple((r(tg), r(it)) for tg, it in chain), frozenset((r(t), p) for t, p in texts)
+
+    def from_value(v: ast.AST, chain, facts, env_path: Path, k) -> bool:
+        """refusals contributed by `return v` (v not a constant)"""
+        e = ast.parse(env_path.res(v, k), mode="eval").body
+        neg = False
+        while isinstance(e, ast.UnaryOp) and isinstance(e.op, ast.Not):
+            e, neg = e.operand, not neg
+        if isinstance(e, ast.Call) and isinstance(e.func, ast.Name) and e.func.id in ("any", "all") and len(e.args) == 1 and isinstance(e.args[0], ast.GeneratorExp):
+            g = e.args[0]
+            gchain = chain + tuple((unparse(c.target), unparse(c.iter)) for c in g.generators)
+            gfacts = set(facts) | {norm_fact(i, True) for c in g.generators for i in c.ifs}
+            is_any = e.func.id == "any"
+            if is_any and neg:  # not any(P): refused when some P holds
+                out.append(rename(gchain, gfacts | {norm_fact(g.elt, True)}))
+                return True
+            if (not is_any) and not neg:  # all(P): refused when some P fails
+                out.append(rename(gchain, gfacts | {norm_fact(g.elt, False)}))
+                return True
+            return False
+        if isinstance(e, ast.BoolOp) and isinstance(e.op, ast.And) and not neg:
+            ok = True
+            for c in e.values:
+                if isinstance(c, ast.Call) and isinstance(c.func, ast.Name) and c.func.id in ("any", "all") or (isinstance(c, ast.UnaryOp) and isinstance(c.operand, ast.Call) and isinstance(c.operand.func, ast.Name) and c.operand.func.id in ("any", "all")):
+                    fake = Path()
+                    ok = from_value(c, chain, facts, fake, None) and ok
+                else:
+                    out.append(rename(chain, set(facts) | {norm_fact(c, False)}))
+            return ok
+        out.append(rename(chain, set(facts) | {norm_fact(e, neg)}))
+        return True
+
+    def walk(paths: list[Path], chain, outer_facts) -> bool:
+        ok = True
+        for p in paths:
+            facts = set(outer_facts) | p.nfacts()
+            for e in p.effects:
+                if isinstance(e, Loop):
+                    if isinstance(e.node, ast.For):
+                        sub_chain = chain + ((unparse(e.node.target), getattr(e, "riter", None) or unparse(e.node.iter)),)
+                    else:
+                        sub_chain = chain + (("", unparse(e.node.test)),)
+                    # facts established before the loop on this path hold inside it
+                    inner = [b for b in e.body if b.end == "return"]
+                    ok = walk(inner, sub_chain, facts_before(p, e)) and ok
+            if p.end != "return" or p.value is None:
+                continue
+            if any(isinstance(e, Loop) and any(b.end == "return" and b.value is p.value for b in e.body) for e in p.effects):
+                continue  # the return was lifted out of a loop body: handled with its chain above
+            if isinstance(p.value, ast.Constant) and isinstance(p.value.value, bool):
+                if p.value.value is False:
+                    out.append(rename(chain, facts))
+                continue
+            ok = from_value(p.value, chain, facts, p, len(p.effects) - 1 if p.effects else None) and ok
+        return ok
+
+    def facts_before(p: Path, loop: Loop):
+        from .astutil import norm_fact as nf_
+
+        return {nf_(t, pol) for t, pol in p.rfacts}
+
+    try:
+        paths = enum_paths(fn)
+        loops_of(paths)
+    except AnalysisError:
+        return None
+    if not walk(paths, (), set()):
+        return None
+    return out
